@@ -261,3 +261,75 @@ def ob_homeserver_output(asel: int, rsel: int, w0: bool, w1: bool, kind: int, ha
     if got != want:
         return "whitelist_output_validator=%r want %r" % (got, want)
     return "ok"
+
+
+@obligation(funcs=["storage.db.Subscription.run_query", "storage.db.DBStorage.run_query", "storage.kv.Subscription.run_query"],
+            params=range(2), timeout=(120, 600),
+            bounds="PARAM 0 SQL / 1 LMDB stored-query task over 2 stored events with an output validator whose verdict per event "
+                   "is symbolic (and without one): exactly the approved events are queued, then one sentinel")
+def ob_output_validator_stored(configured: bool, v0: bool, v1: bool) -> str:
+    """
+    post: _.startswith("ok")
+    """
+    logging.disable(logging.CRITICAL)
+    from aionostr.event import Event
+    from envmodel.fake_asyncio import Loop
+    from harness import _webcommon as C
+    loop = Loop()
+    C.install(loop)
+    verdicts = {C.STORED[0].content: v0, C.STORED[1].content: v1}
+    asked = []
+
+    def check_output(event, context):
+        asked.append(event.content)
+        return verdicts[event.content]
+
+    q = loop.namespace().Queue()
+    if PARAM == 0:
+        from harness import _sqlstore as S
+        from harness.C13_protocol import _Stream
+        from nostr_relay.storage import db as D
+        D.asyncio = loop.namespace()
+        st = S.make_store()
+        st.check_output = check_output if configured else None
+        rows = [(bytes.fromhex(e.id), e.created_at, e.kind, bytes.fromhex(e.pubkey), [], bytes.fromhex(e.sig), e.content)
+                for e in C.STORED[:2]]
+
+        class _Conn:
+            def stream(self_, query):
+                return _Stream(loop, rows, -1)
+
+        class _Ctx:
+            async def __aenter__(self_):
+                return _Conn()
+
+            async def __aexit__(self_, *a):
+                return False
+
+        st.db.connect = lambda: _Ctx()
+        sub = D.Subscription.__new__(D.Subscription)
+        sub.storage, sub.sub_id, sub.queue, sub.query, sub.filters = st, "s", q, "SELECT", []
+        sub.client_id, sub.auth_token, sub.is_postgres = "c", {}, False
+    else:
+        from nostr_relay.storage import kv
+        st = C.Store(loop)
+        st.check_output = check_output if configured else None
+        st.query_pool = None
+
+        async def executor(env, plans, pool, **kw):
+            yield ("plan", list(C.STORED[:2]))
+
+        kv.executor = executor
+        kv.analyze = lambda *a, **k: None
+        sub = kv.Subscription(st, "s", [], queue=q, client_id="c", auth_token={})
+        sub.query = kv.QueryPlans()
+    loop.run(sub.run_query())
+    got = [e.content for (s, e) in q.items if e is not None]
+    want = [e.content for e in C.STORED[:2] if (not configured or verdicts[e.content])]
+    if got != want:
+        return "queued %r, the output validator approved %r" % (got, want)
+    if [x for x in q.items if x[1] is None] != [("s", None)] or q.items[-1][1] is not None:
+        return "sentinel missing / misplaced: %r" % ([x[1] is None for x in q.items],)
+    if configured and sorted(asked) != sorted(e.content for e in C.STORED[:2]):
+        return "output validator consulted for %r" % (asked,)
+    return "ok" if configured else "ok-unconfigured"
